@@ -4,6 +4,7 @@ import (
 	"context"
 	"fmt"
 	"math/rand"
+	"strings"
 	"time"
 
 	"verif/harness/chain"
@@ -125,7 +126,16 @@ func (s *Scen) attStep(m *attMsg) *Step {
 		key = keyAtt(m.data.Target.Epoch, m.committee[m.positions[0]])
 	}
 	subnet := m.subnet
-	return &Step{Topic: "att", Desc: m.desc, Variant: m.variant, Cond: cond, Key: map[string][]string{"att": {key}}, Now: m.now, Bad: m.bad,
+	bnd := ""
+	if strings.HasPrefix(m.desc, "honest") {
+		sp := s.spec()
+		if chain.ForkAtEpoch(sp, m.data.Target.Epoch) < chain.ForkAtEpoch(sp, sp.SlotToEpoch(s.slotAt(m.now))) {
+			bnd = bndPreFork
+		} else if uint64(m.data.Index)+1 == m.cps {
+			bnd = "committee_index=count-1"
+		}
+	}
+	return &Step{Topic: "att", Desc: m.desc, Variant: m.variant, Bnd: bnd, Cond: cond, Key: map[string][]string{"att": {key}}, Now: m.now, Bad: m.bad,
 		Run: func(b *Backend) gossipval.GossipValidatorResult {
 			_, res := gossipval.ValidateAttestation(context.Background(), subnet, att, b)
 			return res
@@ -314,6 +324,12 @@ func (s *Scen) attHistories(tier string, rng *rand.Rand) []*History {
 		out = append(out, &History{Name: "honest+dup " + fmtSite(site.head.Root, site.slot, "/", site.index, "/", site.pos),
 			Steps: []*Step{h, clone(h)}})
 	}
+	// attestations dated before the last fork boundary, received after it
+	for _, site := range s.preForkSites(sites, 4) {
+		h := s.attStep(s.honestAtt(site))
+		out = append(out, &History{Name: "pre-fork+dup " + fmtSite(site.head.Root, site.slot, "/", site.index, "/", site.pos),
+			Steps: []*Step{h, clone(h)}})
+	}
 	// single-condition corruptions: [V, H, H]
 	for _, site := range pick(rng, sites, nCorrupt) {
 		hm := s.honestAtt(site)
@@ -351,6 +367,27 @@ func (s *Scen) attHistories(tier string, rng *rand.Rand) []*History {
 		m.desc = "honest:side-branch"
 		h := s.attStep(m)
 		out = append(out, &History{Name: "side-branch", Steps: []*Step{h, clone(h)}})
+	}
+	return out
+}
+
+// preForkSites selects up to n sites (distinct committees) whose epoch lies before the fork the
+// view's clock is in.
+func (s *Scen) preForkSites(sites []attSite, n int) []attSite {
+	sp := s.spec()
+	now := chain.ForkAtEpoch(sp, sp.SlotToEpoch(s.slotAt(s.Now)))
+	var out []attSite
+	type ck struct {
+		slot  common.Slot
+		index common.CommitteeIndex
+	}
+	seen := map[ck]bool{}
+	for _, st := range sites {
+		k := ck{st.slot, st.index}
+		if chain.ForkAtEpoch(sp, sp.SlotToEpoch(st.slot)) < now && !seen[k] && len(out) < n {
+			seen[k] = true
+			out = append(out, st)
+		}
 	}
 	return out
 }
